@@ -16,9 +16,13 @@ import FpgoVerif.Props.C04
 #print axioms FpgoVerif.C04.C04_stream_results_binary
 #print axioms FpgoVerif.C04.C04_toArray_detached
 #print axioms FpgoVerif.C04.C04_clone_detached
-#print axioms FpgoVerif.C04.C04_len_agrees_partial
+#print axioms FpgoVerif.C04.C04_len_agrees
 #print axioms FpgoVerif.C04.C04_effects_closed
 #print axioms FpgoVerif.C04.C04_effects_inventory
 #print axioms FpgoVerif.C04.C04_ifaceRemove_frame
-#print axioms FpgoVerif.C04.C04_ifaceRemove_content_partial
 #print axioms FpgoVerif.C04.C04_http_instances_independent
+#print axioms FpgoVerif.C04.C04_headers_in_bounds
+#print axioms FpgoVerif.C04.C04_ifaceRemove_content
+#print axioms FpgoVerif.C04.C04_append_content
+#print axioms FpgoVerif.C04.C04_concat_content
+#print axioms FpgoVerif.C04.C04_extend_content
